@@ -293,6 +293,13 @@ def ex_case(ctx, case, test="CL", num_sim=3, source="seed", seed=1):
                     (float(res2.observed_statistic) == obs or (math.isnan(obs) and math.isnan(float(res2.observed_statistic))))):
                 ctx.violate("two runs with the same forecast, catalog and seed differ", rc, observed={"first": td[:4], "second": td2[:4]},
                             tags=dict(tags, clause="determinism"))
+    if ctx.evaluations % 61 == 0 and sl.calls and "result" in sl.calls[0]:
+        e0 = sl.calls[0]
+        W0, _m = simlog.weights_data(e0["weights"])
+        u0 = sl.draws_of(e0)
+        ctx.sample({"test": test, "source": source, "seed": seed, "rates_head": r1d[:6], "cumulative_weights_head": W0[:6], "last_weight": float(W0[-1]),
+                    "draws_head": u0[:6], "bins_of_draws_head": simlog.place(W0, u0[:6]), "returned_counts_nonzero_bins": numpy.nonzero(e0["result"])[0][:10],
+                    "quantile": q, "n_simulator_calls": len(sl.calls)})
     if tags["has_zero_rate"] or source != "seed" or seed == 0:
         ctx.nt(digest((case["rates"], case["ev_cell"], test, source, seed)))
 
